@@ -24,6 +24,8 @@ Part/PerformedPart, single-part Score/Performance or note arrays):
      performance = the model decoder on the same parameters, time maps at the knots;
      TIE bits (c18_tie; a failure is a failed 'model tie' obligation, not a violation): the outputs are
      still computed by the formulas of Model/C18.v (tempo curves, timing origin, v/127, constants, ...).
+ (d) decode_time called directly on arrays (run_loop_case): direct oracle (onsets up to one shift, durations) and the array-level
+     model coq/Model/C18_Loop.v (np.cumsum, zero array, scatter loop over the groups, one shift after the loop: loop_check).
  (c) histories (run_history): the SAME objects go through all the functions, are edited through the public API / in
      place, and go through them again; every round is judged by (a) against the CURRENT state only (the JSON state
      after the edits + the note arrays of a freshly built copy); some of them also go through the state machine of
@@ -1708,9 +1710,217 @@ def gen_history_case(rng):
     return case
 
 
+# ----------------------------------------------------------------------------
+# round j: decode_time called directly -- the array-level model coq/Model/C18_Loop.v (np.cumsum, zero array, one write
+# per cell in the order of the groups, ONE shift after the loop) evaluated on the arrays the implementation received
+
+
+LOOP_IMPORTS = "From PV Require Import Model.C18 Model.C18_Check Model.C18_Loop."
+ARTS = [-1.0, -0.5, 0.0, 0.0, 0.5, 1.0, 2.0]
+
+
+def gen_loop_case(rng):
+    """Score onsets / durations as arrays (sorted as decode_performance hands them over, or in any order: the onsets
+    need not be sorted, get_unique_onset_idxs says), and a parameter array: `arbitrary` = any float32 values (beat period
+    constant per score onset as every encoder leaves it, timing and articulation free per note), `encoded` = what
+    /repo's encode_tempo makes of a random performance of these notes."""
+    kind = rng.choices(["arbitrary", "encoded"], [55, 45])[0]
+    grid = rng.choice([1, 2, 4, 8, 3, 12, 480])
+    n_on = rng.choice([1, 1, 2, 3, 4, 6, 9])
+    onsets = sorted(rng.sample(range(-grid, 12 * grid + 1), n_on))
+    trailing_grace = rng.random() < 0.2
+    notes = []
+    for k, o in enumerate(onsets):
+        m = rng.choice([1, 1, 1, 2, 2, 3, 4])
+        for _ in range(m):
+            grace = rng.random() < 0.15 or (trailing_grace and k == len(onsets) - 1)
+            notes.append((o, 0 if grace else rng.randint(1, 4 * grid)))
+    order = rng.choices(["sorted", "shuffled", "reversed"], [50, 40, 10])[0]
+    if order == "shuffled":
+        rng.shuffle(notes)
+    elif order == "reversed":
+        notes.reverse()
+    case = {"loop": True, "kind": kind, "order": order, "grid": grid,
+            "so": [o / grid for o, _ in notes], "sd": [d / grid for _, d in notes]}
+    if kind == "arbitrary":
+        style = rng.choices(["positive", "any_sign"], [85, 15])[0]
+        bp_of = {}
+        for o in onsets:
+            bp_of[o] = rng.randint(8, 256) / 128.0 if style == "positive" else rng.randint(-128, 256) / 128.0
+        case["bp"] = [bp_of[o] for o, _ in notes]
+        case["timing"] = [rng.randint(-2048, 2048) / 1024.0 if rng.random() < 0.8 else 0.0 for _ in notes]
+        case["art"] = [rng.choice(ARTS) for _ in notes]
+    else:
+        flavour = rng.choices(["walk", "wild"], [75, 25])[0]
+        t, at = rng.uniform(0.0, 3.0), {}
+        for o in onsets:
+            at[o] = t
+            t += rng.uniform(0.05, 1.5)
+        if flavour == "wild":
+            for o in onsets:
+                at[o] = rng.uniform(-2.0, 8.0)
+        case["po"] = [at[o] + rng.uniform(-0.02, 0.02) for o, _ in notes]
+        case["pd"] = [rng.uniform(0.05, 2.0) for _ in notes]
+        case["method"] = rng.choice(METHODS)
+        case["flavour"] = flavour
+    return case
+
+
+def sub_loop_case(case, keep):
+    c = dict(case)
+    for k in ("so", "sd", "bp", "timing", "art", "po", "pd"):
+        if k in case:
+            c[k] = [case[k][i] for i in keep]
+    return c
+
+
+def run_loop_case(case):
+    """(obs, failures): decode_time of /repo on the case; the direct oracle in Python (independent of the Coq model):
+    encoded -- the decoded onsets are the performed ones up to ONE shift, the durations of notes with a score duration the
+    performed ones; arbitrary -- the per-note formulas in exact rationals (beat period of the note's score onset, running
+    sum of score interval x beat period up to that onset, minus the note's timing)."""
+    import numpy as np
+    core.setup_import_path()
+    from partitura.musicanalysis import performance_codec as PC
+    so = np.array(case["so"], dtype=float)
+    sd = np.array(case["sd"], dtype=float)
+    n = len(so)
+    bad = []
+    obs = {"rows": None}
+    if case["kind"] == "encoded":
+        try:
+            params = PC.encode_tempo(score_onsets=so.copy(), performed_onsets=np.array(case["po"], dtype=float),
+                                     score_durations=sd.copy(), performed_durations=np.array(case["pd"], dtype=float),
+                                     return_u_onset_idx=False, beat_normalization="beat_period", tempo_smooth=case["method"])
+        except Exception as e:
+            return obs, [("loop_enc_exc", "encode_tempo raised %s: %s" % (type(e).__name__, e))]
+    else:
+        params = np.zeros(n, dtype=[(f, "f4") for f in ("beat_period", "velocity", "timing", "articulation_log")])
+        params["beat_period"] = case["bp"]
+        params["timing"] = case["timing"]
+        params["articulation_log"] = case["art"]
+    obs["params"] = params.copy()
+    try:
+        rows = PC.decode_time(score_onsets=so.copy(), score_durations=sd.copy(), parameters=params.copy(), normalization="beat_period")
+        rows = np.asarray(rows, dtype=float)
+    except Exception as e:
+        return obs, [("loop_exc", "decode_time raised %s: %s on %d notes" % (type(e).__name__, e, n))]
+    if rows.shape != (n, 2):
+        return obs, [("loop_shape", "decode_time returned shape %r for %d notes" % (rows.shape, n))]
+    if not np.all(np.isfinite(rows)):
+        return obs, [("loop_nan", "decode_time returned a non-finite value: %r" % rows.tolist())]
+    obs["rows"] = rows
+    timing = params["timing"].astype(float)
+    bpc = params["beat_period"].astype(float)
+    if case["kind"] == "encoded":
+        po, pd = np.array(case["po"]), np.array(case["pd"])
+        mag = max(1.0, float(np.max(np.abs(po))), float(np.max(np.abs(timing))), float(np.max(np.abs(timing + po))))
+        off = rows[:, 0] - po
+        if float(np.max(off) - np.min(off)) > 4e-6 * mag:
+            j = int(np.argmax(np.abs(off - np.median(off))))
+            bad.append(("loop_onset", "decode_time(encode_tempo(...)): note %d decoded at %.9g - shift %.9g, performed at %.9g"
+                        % (j, rows[j, 0], float(np.median(off)), po[j])))
+        for j in range(n):
+            if sd[j] > 0 and abs(rows[j, 1] - pd[j]) > 1e-5 * abs(pd[j]) + 1e-6:
+                bad.append(("loop_dur", "decode_time(encode_tempo(...)): note %d decoded duration %.9g, performed %.9g" % (j, rows[j, 1], pd[j])))
+                break
+    else:
+        F = Fraction
+        fso, fsd = [F(x) for x in case["so"]], [F(x) for x in case["sd"]]
+        us = sorted(set(fso))
+        last = max(a + b for a, b in zip(fso, fsd))
+        if last - us[-1] <= F(1, 10 ** 6):
+            last = us[-1] + 1
+        xs = us + [last]
+        bp_u = [F(float(bpc[fso.index(u)])) for u in us]
+        eq = [F(0)]
+        for k in range(len(us)):
+            eq.append(eq[-1] + (xs[k + 1] - xs[k]) * bp_u[k])
+        raw = [eq[us.index(fso[j])] - F(float(timing[j])) for j in range(n)]
+        mag = 1.0 + max(abs(float(r)) for r in raw)
+        off = [rows[j, 0] - float(raw[j]) for j in range(n)]
+        if max(off) - min(off) > 1e-9 * mag:
+            j = max(range(n), key=lambda q: abs(off[q] - off[0]))
+            bad.append(("loop_onset", "decode_time: notes 0 and %d decoded %.9g apart, the parameters say %.9g (running sum of score "
+                        "interval x beat period minus timing)" % (j, rows[j, 0] - rows[0, 0], float(raw[j] - raw[0]))))
+        for j in range(n):
+            want = 2.0 ** float(params["articulation_log"][j]) * float(fsd[j]) * float(bp_u[us.index(fso[j])])
+            if abs(rows[j, 1] - want) > 1e-6 * abs(want) + 1e-9:
+                bad.append(("loop_dur", "decode_time: note %d decoded duration %.9g, 2**articulation x score duration x beat period = %.9g"
+                            % (j, rows[j, 1], want)))
+                break
+    return obs, bad
+
+
+def loop_term(case, obs):
+    """The case as a Coq term of type loop_case: the arrays handed to decode_time (exact values of the floats), 2 ** the
+    articulation column, the tolerance, the rows returned."""
+    params = obs.get("params")
+    if params is None:
+        return None
+    rows = obs.get("rows")
+    timing = [fr(x) for x in params["timing"]]
+    mag = 1.0 + max([abs(float(t)) for t in timing] + ([float(abs(rows[:, 0]).max())] if rows is not None and len(rows) else [0.0]))
+    # float64 arithmetic on float32-exact inputs, except the chord mean of the beat period, which decode_time stores as
+    # float32 again (np.mean of three equal float32 values may be one ulp off): 2^-23 relative on every equivalent onset
+    tol = Fraction(mag) * 3 / 10 ** 7
+    ql = lambda xs: clist([cq(fr(x)) for x in xs])
+    return "(%s : loop_case)" % ctuple([
+        ql(case["so"]), ql(case["sd"]), ql(params["beat_period"]), clist([cq(t) for t in timing]),
+        ql([2.0 ** float(a) for a in params["articulation_log"]]), cq(tol),
+        core.copt(rows, lambda r: clist([ctuple([cq(fr(a)), cq(fr(b))]) for a, b in r]))])
+
+
+def loop_shift_inside_differs(case, obs):
+    """Generator power, computed in Python from what decode_time returned: would the loop with the shift indented into it
+    (seeded change d; Model/C18_Loop.v decode_time_loop_bad) have placed the notes at other distances on this case?"""
+    import numpy as np
+    rows, params = obs.get("rows"), obs.get("params")
+    if rows is None or not len(rows):
+        return False
+    so = np.array(case["so"])
+    first = int(np.argmin(so))
+    raw = rows[:, 0] + (-float(params["timing"][first]) - rows[first, 0])  # eq_onset of the first score onset is 0
+    perf = np.zeros(len(so))
+    for u in sorted(set(case["so"])):
+        jj = np.where(so == u)[0]
+        perf[jj] = raw[jj]
+        perf -= perf.min()
+    off = perf - rows[:, 0]
+    return bool(off.max() - off.min() > 1e-6)
+
+
+def loop_features(case):
+    so, sd = case["so"], case["sd"]
+    us = sorted(set(so))
+    f = ["loop:kind:" + case["kind"], "loop:order:" + case["order"]]
+    if len(us) == 1:
+        f.append("loop:single_onset")
+    if len(us) < len(so):
+        f.append("loop:has_chord")
+    if any(d == 0 for d in sd):
+        f.append("loop:has_grace")
+    if all(d == 0 for o, d in zip(so, sd) if o == us[-1]):
+        f.append("loop:last_onset_only_grace")
+    if case["order"] != "sorted" and so != sorted(so):
+        f.append("loop:onsets_unsorted")
+    if case["kind"] == "arbitrary":
+        if any(t > 0 for t in case["timing"]):
+            f.append("loop:positive_timing")
+        if any(b <= 0 for b in case["bp"]):
+            f.append("loop:non_positive_beat_period")
+    else:
+        f.append("loop:method:" + case["method"])
+        f.append("loop:flavour:" + case["flavour"])
+    f.append("loop:notes:%s" % ("1" if len(so) == 1 else "2-5" if len(so) <= 5 else "6-12" if len(so) <= 12 else "13+"))
+    return f
+
+
 def run_case(case):
     """(obs, failures) of one case under the CPU budget."""
     def go():
+        if case.get("loop"):
+            return run_loop_case(case)
         if "stages" in case:
             return run_history(case)
         obs = run_impl(case)
@@ -1784,6 +1994,13 @@ def run(ctx):
                 "of a freshly built copy); 50% the caller overwrites everything returned before the next round, else the earlier results are "
                 "judged and decoded again after the later round; 50% the same (parameters, snote_ids) objects decoded repeatedly; 40% fresh "
                 "objects with the same ids run in between; time maps also queried with numpy / Python scalars, 0-d, one-element, empty arrays.  "
+                "DECODE_TIME CALLS (round j; quick 800, thorough 12000; 160 / 3000 of them also through Model/C18_Loop.v's decode_time_loop): "
+                "score onset / duration ARRAYS of 1-9 distinct onsets on 7 grids (1 .. 1/480 beat, also negative), 1-4 notes per onset, grace "
+                "notes 15% + a last onset of grace notes only 20%, rows sorted 50% / shuffled 40% / reversed 10%, with a parameter array that is "
+                "arbitrary 55% (float32-exact beat period per onset, 15% of them of any sign, timing in [-2, 2] or 0, articulation in "
+                "{-1, -1/2, 0, 1/2, 1, 2}) or what /repo's encode_tempo makes of a random performance of these rows 45% (average / derivative; "
+                "increasing chord times 75%, arbitrary 25%); a disagreement with the model on sorted arrays is a violation, on unsorted ones "
+                "(never produced by the library) model drift.  "
                 "Distinct non-trivial = distinct cases with >= 2 score onsets of which at least one carries >= 2 matched notes.")
     ctx.trusted = ["Coq 8.16.1 kernel incl. vm_compute", "harness/props/c18.py: generator, partitura object builder, printers of note arrays "
                    "and implementation outputs as exact rationals, Python-side 2** applied to logarithmic columns before comparison, "
@@ -1811,7 +2028,7 @@ def run(ctx):
     ctx.matchers["C18-K1"] = lambda r: isinstance(r, dict) and str(r.get("code", "")).endswith("_dur_grace")
     ctx.matchers["C18-K2"] = lambda r: isinstance(r, dict) and str(r.get("code", "")).endswith("_dur_floor")
     gen()
-    ok, why = ctx.coq_props(expect_min=32)
+    ok, why = ctx.coq_props(expect_min=36)
     ctx.log("theorems checked:", "ok" if ok else why[:200])
     # cases that also go through the Coq correspondence (about 0.25 s of coqc each) ...
     n_cases = 120 if ctx.tier == "quick" else 4000
@@ -1836,6 +2053,10 @@ def run(ctx):
     n_hist = 320 if ctx.tier == "quick" else 2500
     for k in range(n_hist):
         cases.append(gen_history_case(rng))
+    # ... and decode_time called directly on arrays (round j: Model/C18_Loop.v), all of them through Coq as well
+    n_loop = 800 if ctx.tier == "quick" else 12000
+    n_loop_corr = 160 if ctx.tier == "quick" else 3000   # parsing the exact float literals dominates: ~0.05 s of coqc each
+    loop_cases = [gen_loop_case(rng) for k in range(n_loop)]
     terms, kept = [], []
     hterms, hkept = [], []
     n_hist_corr = 100 if ctx.tier == "quick" else 500
@@ -1925,7 +2146,81 @@ def run(ctx):
     ctx.log("implementation run and direct oracle evaluated on %d cases, %d go to the correspondence" % (len(cases), len(terms)))
     ctx.obligation("direct oracle: decode(encode) / matched notes / time maps on %d generated cases" % ctx.evaluations, n_viol == 0,
                    "%d failing observations" % n_viol)
-    if not ok and n_viol == 0:
+    # ---- round j: decode_time as written (loop stream) ----
+    lterms, lkept = [], []
+    n_lviol, lreported, n_ldiff = 0, set(), 0
+    for case in loop_cases:
+        if len(TIMEOUTS) >= 4:
+            break
+        try:
+            obs, bad = run_case(case)
+        except Exception as e:
+            import traceback
+            obs, bad = None, [("harness", traceback.format_exc()[-600:])]
+        ctx.evaluations += 1
+        ctx.count("loop_case")
+        for k in loop_features(case):
+            ctx.count(k)
+        if len(set(case["so"])) >= 2 and len(set(case["so"])) < len(case["so"]):
+            ctx.nontrivial(json.dumps(case, sort_keys=True))
+        for code, msg in bad[:1]:
+            n_lviol += 1
+            if code in lreported or len(lreported) >= 3:
+                continue
+            lreported.add(code)
+            small = case
+            if code not in ("harness", "no_termination"):
+                keep = core.ddmin(list(range(len(case["so"]))), lambda sub: bool(sub) and code in fail_codes(sub_loop_case(case, sub)))
+                small = sub_loop_case(case, keep)
+                try:
+                    msg = next((m for c, m in run_case(small)[1] if c == code), msg)
+                except Exception:
+                    pass
+            ctx.violation("C18 fails on the implementation [%s]: %s" % (code, msg), {"code": code, "case": small, "message": msg})
+        if obs is not None and not bad:
+            if loop_shift_inside_differs(case, obs):
+                n_ldiff += 1
+                ctx.count("loop:shift_inside_loop_would_differ")
+            t = loop_term(case, obs) if len(lterms) < n_loop_corr else None
+            if t is not None:
+                lterms.append(t)
+                lkept.append(case)
+    ctx.obligation("direct oracle (decode_time called on arrays): decoded onsets up to one shift and durations on %d generated "
+                   "(score arrays, parameter array) pairs" % len(loop_cases), n_lviol == 0, "%d failing" % n_lviol)
+    try:
+        lrest = ctx.coq_failing("loop", LOOP_IMPORTS, "", lterms, "(fun c => loop_check c && loop_origin c)",
+                                shard=40 if ctx.tier == "quick" else 100, timeout=1500, ty="loop_case")
+        lsub = ctx.coq_failing("loopc", LOOP_IMPORTS, "", [lterms[i] for i in lrest], "loop_check", shard=40, timeout=1500,
+                               ty="loop_case") if lrest else []
+        lfail = [lrest[k] for k in lsub]
+        lorigin = [i for i in lrest if i not in set(lfail)]
+        lerr = None
+    except RuntimeError as e:
+        lrest, lfail, lorigin, lerr = [], [], [], str(e)
+    # sorted score arrays are what decode_performance hands to decode_time: a disagreement there is a violation; on arrays
+    # in another order (legal for get_unique_onset_idxs, never produced by the library itself) it is model drift
+    lfail_prop = [i for i in lfail if lkept[i]["order"] == "sorted"]
+    lfail_tie = [i for i in lfail if lkept[i]["order"] != "sorted"]
+    ctx.obligation("correspondence (decode_time as written): on %d generated calls the rows decode_time returns are those of "
+                   "Model/C18_Loop.v's decode_time_loop (np.cumsum, zero array, scatter loop over the groups, one shift after the "
+                   "loop) on the same arrays -- onsets up to one shift, durations cell by cell" % len(lterms),
+                   lerr is None and not lfail_prop, lerr or lfail_prop[:5])
+    if lerr is not None:
+        ctx.violation("the loop model could not be evaluated: " + lerr[-800:], {"coq_error": lerr[-2000:]}, no_input=True)
+    for i in lfail_prop[:2]:
+        ctx.violation("decode_time does not return what Model/C18_Loop.v's decode_time_loop returns on the same arrays (loop_check fails)",
+                      {"code": "loop_correspondence", "case": lkept[i]})
+    ctx.obligation("model tie (informative): decode_time on score arrays that are not sorted = decode_time_loop; decoded onsets start "
+                   "at 0 (shift_min)", lerr is None and not lfail_tie and not lorigin,
+                   "%d unsorted cases differ, %d cases with another origin" % (len(lfail_tie), len(lorigin)))
+    n_lok = len(loop_cases) - n_lviol
+    ctx.obligation("generator power (informative): at least a fifth of the decode_time calls tell the loop with the shift inside "
+                   "(Model/C18_Loop.v decode_time_loop_bad, seeded change d) from the loop as written", not n_lok or 5 * n_ldiff >= n_lok,
+                   "%d of %d" % (n_ldiff, n_lok))
+    ctx.extra["loop_cases_in_correspondence"] = len(lterms)
+    ctx.extra["loop_cases_distinguishing_shift_inside_loop"] = n_ldiff
+    ctx.log("loop correspondence evaluated on %d decode_time calls" % len(lterms))
+    if not ok and n_viol == 0 and n_lviol == 0:
         ctx.violation("proof obligations of Props/C18.v no longer check: " + why, {"theorem_or_build": why}, no_input=True)
     shard = 40 if ctx.tier == "quick" else 100
     try:
@@ -2016,6 +2311,20 @@ def replay(obj):
         return 0
     obs, failures = run_case(case)
     if obs is None:
+        for c, m in failures:
+            print("  [%s] %s" % (c, m))
+        return 0
+    if case.get("loop"):
+        print("decode_time(score_onsets, score_durations, parameters, normalization='beat_period') called directly (%s parameters, %s arrays)"
+              % (case["kind"], case["order"]))
+        print("score onsets:", case["so"])
+        print("score durations:", case["sd"])
+        if case["kind"] == "encoded":
+            print("performed onsets:", case["po"], "performed durations:", case["pd"], "tempo method:", case["method"])
+        print("parameters (beat_period, timing, articulation_log):",
+              None if obs.get("params") is None else obs["params"][["beat_period", "timing", "articulation_log"]].tolist())
+        print("decode_time returned:", None if obs.get("rows") is None else obs["rows"].tolist())
+        print("property failures on the implementation:")
         for c, m in failures:
             print("  [%s] %s" % (c, m))
         return 0
